@@ -28,10 +28,25 @@ def _simple(c, g):
         return ("first_only", g.value)
     if re.match(r"^phi\((false|true)( \| (false|true))*\)$", c) or c in ("false", "true"):
         return ("dvc", g.value)
+    if c.startswith("phi(") and c.endswith(")"):
+        # the flag may also be assigned the (negated) outcome of a cursor move: phi(false | true | (Not goto_x(..)))
+        alts, depth, cur = [], 0, ""
+        for ch in c[4:-1]:
+            if ch in "([{":
+                depth += 1
+            elif ch in ")]}":
+                depth -= 1
+            cur += ch
+            if depth == 0 and cur.endswith(" | "):
+                alts.append(cur[:-3])
+                cur = ""
+        alts.append(cur)
+        if all(a in ("false", "true") or re.match(r"^\(?(Not |!)?\(?TreeCursor::goto_\w+\(", a) for a in alts):
+            return ("dvc", g.value)
     return ("other:" + c[:50], g.value if g.value is not None else g.variant)
 
 
-def run(prog, rep):
+def traversal(prog, rep):
     rep.rule("C18.T", "find_errors is the fixed pre-order walk that reports error/missing nodes and skips their subtrees")
     fe = [f for f in prog.fns.values() if f.name == "find_errors" and f.file == "src/parse_error.rs"]
     if len(fe) != 1:
@@ -61,6 +76,13 @@ def run(prog, rep):
                     if g.src not in lp[1]:
                         continue
                     conds.add(_simple(canon(g.cond), g))
+                m = re.match(r"^\(?(!|Not )?\(?(?:Node|TreeCursor)::(goto_\w+)\(", val)
+                if m:
+                    # `flag = !cursor.goto_x()` is the two-armed if written as one assignment
+                    neg = bool(m.group(1))
+                    table.setdefault(frozenset(conds | {(m.group(2), True)}), set()).add("false" if neg else "true")
+                    table.setdefault(frozenset(conds | {(m.group(2), False)}), set()).add("true" if neg else "false")
+                    continue
                 table.setdefault(frozenset(conds), set()).add(val)
             want = {
                 frozenset(): {"false"},
@@ -104,7 +126,24 @@ def run(prog, rep):
         okh = any(g.value is False and not any(body.term(x)["k"] == "call" and is_callee(body.term(x), r"Tree::walk$") for x in body.reach_from([g.dst])) for g in he) and \
             any(g.value is True and any(body.term(x)["k"] == "call" and is_callee(body.term(x), r"Tree::walk$") for x in body.reach_from([g.dst])) for g in he)
         rep.check(okh, "C18.T", "find_errors :: fast path", f.loc(), "the walk is skipped exactly when root.has_error() is false", "fast path condition changed")
-    # entry points
+        # cursor navigation: the cursor is created at the root by Tree::walk and moved only by the three walk steps, each inside the loop
+        navs = []
+        for b, t in body.calls():
+            fr = callee_fn(t)
+            if fr and re.search(r"tree_sitter::TreeCursor::<'\w+>::(goto_\w+|reset\w*)$|TreeCursor::(goto_\w+|reset\w*)$", fr.get("def", "")):
+                inl = dvc is not None and b in lp[1]
+                after = dvc is not None and not inl and lp[0] not in body.reach_from([b])
+                if not after:       # a move after the walk has ended cannot change what was reported
+                    navs.append((fr["def"].rsplit("::", 1)[-1], inl))
+        names = sorted(n for n, _ in navs)
+        rep.check(names == ["goto_first_child", "goto_next_sibling", "goto_parent"] and all(inl for _, inl in navs), "C18.T", "find_errors :: cursor moves", f.loc(),
+                  "the cursor starts at the root (Tree::walk) and is moved only by goto_first_child / goto_next_sibling / goto_parent inside the walk loop",
+                  "the cursor is moved outside the walk loop or by another step (%s): the walk no longer starts at the root / visits every node" % navs)
+        walks = [(b, t) for b, t in body.calls() if is_callee(t, r"Tree::walk$")]
+        rep.check(len(walks) == 1 and canon(strip(tr.operand(walks[0][1]["args"][0]))) in ("arg:tree", "*arg:tree", "&*arg:tree"), "C18.T", "find_errors :: cursor origin", f.loc(), "tree.walk() of the given tree", "cursor origin changed")
+
+
+def entry_points(prog, rep):
     rep.rule("C18.E", "first/all/into_first/into_all all use find_errors with first_only = true/false/true/false on the given tree")
     want = {"first": "true", "all": "false", "into_first": "true", "into_all": "false"}
     got = {}
@@ -132,6 +171,11 @@ def run(prog, rep):
         if len(fl) == 1:
             r = canon(Tracer(fl[0].body).local(0))
             rep.check(re.match(pat, r) is not None, "C18.E", "ParseError::%s result" % nm, fl[0].loc(), r[:80], "%s returns %s" % (nm, r[:120]))
+
+
+def run(prog, rep):
+    traversal(prog, rep)
+    entry_points(prog, rep)
     # ---- unsafe audit
     rep.rule("C18.U", "unsafe audit: two lifetime-only transmutes in the owning bundles; six unsafe Send/Sync impls on structs that own the Tree; no 'static node escapes")
     ub = [(f.id, f.unsafe_blocks) for f in prog.fns.values() if f.unsafe_blocks and f.kind != "closure"]
